@@ -341,10 +341,105 @@ fn case_stress(out: &mut CaseOut, rng: &mut Rng, tier: &str) {
         "hot_points": [hot1, hot2], "rotations": rotations, "manual_compactions_run": picks, "closed_immediately": close_now}));
 }
 
+
+/// A memtable flush that runs *inside* a table compaction (the compaction loop gives it priority)
+/// places its output as deep as level 2 if nothing there overlaps it. The compaction in flight is
+/// at that moment writing outputs for the same level whose key range may span the new file.
+/// Forced: level-1 files A and C (with parents A', C' at level 2) are being compacted manually into
+/// level 2 while keys of the gap between them are written, rotated and flushed.
+fn case_flush_into_gap(out: &mut CaseOut, rng: &mut Rng) {
+    let d = director();
+    d.reset(rng.next_u64());
+    let cfg = crate::gen::Config { memtable: 2048, file: 64 * 1024, block: 256, reuse: true };
+    let fs = SimFs::from_image(&dbutil::root_image());
+    let mut sess = Session::new(fs, cfg);
+    if let Err(e) = sess.open() {
+        out.violate("C09/open-failed", json!({"error": e}));
+        return;
+    }
+    let n = rng.range(8, 20);
+    let group = |sess: &mut Session, prefix: &str, round: u64| -> bool {
+        for i in 0..n {
+            if sess.put(format!("{prefix}{i:03}").as_bytes(), format!("{prefix}-r{round}-{i}").as_bytes()).is_err() {
+                return false;
+            }
+        }
+        // a compact_range over a range that holds no keys is a pure memtable flush
+        sess.compact(Some(b"~~~~"), Some(b"~~~~"));
+        sess.wait_quiescent(Duration::from_secs(10))
+    };
+    // first copies settle at level 2, second copies stop at level 1 (they overlap level 2)
+    let ok = group(&mut sess, "a", 0) && group(&mut sess, "c", 0) && group(&mut sess, "a", 1) && group(&mut sess, "c", 1);
+    let shape_before = crate::session::shape_string(&sess.shape());
+    let files_before: Vec<String> = sess.db().verif_files().iter().map(|f| format!("L{}#{}[{}..{}]", f.level, f.number, String::from_utf8_lossy(&f.smallest.user_key), String::from_utf8_lossy(&f.largest.user_key))).collect();
+    if !ok {
+        out.inconclusive("flush-into-gap: could not build the shape");
+        sess.close();
+        return;
+    }
+    let level1: Vec<_> = sess.db().verif_files().into_iter().filter(|f| f.level == 1).collect();
+    let gate = d.arm(crate::director::COMPACTOR, "compact.step", 2);
+    let db = sess.db_arc();
+    let manual = std::thread::Builder::new().name("c09-manual".into()).spawn(move || {
+        set_role(2);
+        let _g = watch::enter("compact_range");
+        db.compact_range(None..None);
+        drop(db);
+    }).unwrap();
+    let arrived = d.wait_arrived(gate, Duration::from_secs(10));
+    let mut rotated = false;
+    if arrived {
+        // keys of the gap, until one rotation has happened
+        let rot0 = d.note_count("mem.rotate");
+        for i in 0..300u64 {
+            let _g = watch::enter("put(gap)");
+            if sess.put(format!("b{:03}", i % 12).as_bytes(), vec![b'g'; 50].as_slice()).is_err() {
+                break;
+            }
+            if d.note_count("mem.rotate") > rot0 {
+                rotated = true;
+                break;
+            }
+        }
+    }
+    d.release(gate);
+    // wait for the manual compaction to return - or for the compaction thread to die
+    let deadline = Instant::now() + Duration::from_secs(20);
+    while !manual.is_finished() && watch::bg_panics().is_empty() && Instant::now() < deadline {
+        std::thread::sleep(Duration::from_millis(2));
+        watch::tick();
+    }
+    if manual.is_finished() {
+        let _ = manual.join();
+        sess.wait_quiescent(Duration::from_secs(10));
+    }
+    let ctx = json!({"scenario": "flush of gap keys inside a manual level-1 compaction", "config": cfg.describe(), "files_before": files_before,
+        "level1_files_before": level1.len(), "compactor_reached_step": arrived, "rotated_while_parked": rotated,
+        "files_after": sess.db().verif_files().iter().map(|f| format!("L{}#{}[{}..{}]", f.level, f.number, String::from_utf8_lossy(&f.smallest.user_key), String::from_utf8_lossy(&f.largest.user_key))).collect::<Vec<_>>()});
+    judge_bg_panics(out, "C09");
+    if !watch::bg_panics().is_empty() {
+        // the compaction thread is dead: closing would wait forever
+        for v in out.violations.iter_mut() {
+            v.detail["ctx"] = ctx.clone();
+        }
+        std::mem::forget(sess);
+    } else {
+        liveness_probe(out, sess.db(), cfg.memtable, "C09");
+        sess.close();
+    }
+    if arrived && rotated && level1.len() >= 2 {
+        out.nontrivial(format!("flush-into-gap/before[{shape_before}]"));
+        out.add("windows_achieved", 1);
+    }
+    out.add("windows_attempted", 1);
+    out.sample = Some(json!({"family": "flush-into-gap", "ctx": ctx}));
+}
+
 pub fn run_case(tier: &str, seed: u64, idx: u64) -> CaseOut {
     let mut out = CaseOut::new();
     let mut rng = Rng::new(mix(&[seed, idx], "c09"));
     match idx % 6 {
+        0 if idx % 12 == 6 => case_flush_into_gap(&mut out, &mut rng),
         0 => case_descriptors(&mut out, &mut rng),
         1 | 2 => case_history(&mut out, &mut rng, idx, tier),
         _ => case_stress(&mut out, &mut rng, tier),
